@@ -204,6 +204,7 @@ func cmdCheck(args []string) int {
 		return 2
 	}
 	v.tier = *tier
+	v.curProp = prop
 	if len(v.specs.Errors) > 0 {
 		for _, e := range v.specs.Errors {
 			fmt.Fprintln(os.Stderr, "govc: spec error:", e)
